@@ -5,6 +5,7 @@ package main
 import (
 	"bufio"
 	"fmt"
+	"math/big"
 	"io"
 	"os"
 	"os/exec"
@@ -228,16 +229,32 @@ func parseValues(txt string, res map[string]uint64) {
 		skip()
 		var val uint64
 		if i < n && txt[i] == '(' {
-			// (_ bvN w)
+			// (_ bvN w)  or  (- N)
 			i++
-			readTok() // _
-			bv := readTok()
-			readTok() // width
-			skip()
-			if i < n && txt[i] == ')' {
-				i++
+			first := readTok()
+			if first == "-" {
+				num := readTok()
+				skip()
+				if i < n && txt[i] == ')' {
+					i++
+				}
+				bi, ok := new(big.Int).SetString(num, 10)
+				if ok {
+					bi.Neg(bi)
+					val = uint64(bi.Int64())
+					if !bi.IsInt64() {
+						val = new(big.Int).And(bi, new(big.Int).SetUint64(^uint64(0))).Uint64()
+					}
+				}
+			} else {
+				bv := readTok()
+				readTok() // width
+				skip()
+				if i < n && txt[i] == ')' {
+					i++
+				}
+				fmt.Sscanf(strings.TrimPrefix(bv, "bv"), "%d", &val)
 			}
-			fmt.Sscanf(strings.TrimPrefix(bv, "bv"), "%d", &val)
 		} else {
 			tok := readTok()
 			switch {
@@ -250,6 +267,10 @@ func parseValues(txt string, res map[string]uint64) {
 			case strings.HasPrefix(tok, "#b"):
 				for _, c := range tok[2:] {
 					val = val<<1 | uint64(c-'0')
+				}
+			default:
+				if bi, ok := new(big.Int).SetString(tok, 10); ok {
+					val = new(big.Int).And(bi, new(big.Int).SetUint64(^uint64(0))).Uint64()
 				}
 			}
 		}
